@@ -310,7 +310,11 @@ Fixpoint decode_script (ha : bool) (l : list Z) : list instr :=
   match l with
   | k :: a :: t =>
       (if k =? 1 then IYield a else if k =? 2 then IAwaitReady a else if k =? 3 then IAwaitPending a
-       else if k =? 4 then IThrow a else if k =? 5 then IReturn else if k =? 6 then IGuard a
+       else if k =? 4 then IThrow a else if k =? 5 then IReturn
+       (* 20: throw await_canceled_exception; 21: a type derived from it; 22: co_await of a future whose promise was
+          dropped (throws await_canceled_exception): exceptions like any other, codes 1001 / 1002 *)
+       else if (k =? 20) || (k =? 22) then IThrow 1001 else if k =? 21 then IThrow 1002
+       else if k =? 6 then IGuard a
        else if k =? 7 then IUnguard else if (k =? 8) && ha then IYieldNull else if (k =? 9) && ha then IYieldEcho
        else INop) :: decode_script ha t
   | _ => []
@@ -662,3 +666,18 @@ Fixpoint xlate_script_t (acc : Z) (l : list Z) : list Z :=
 Definition xlate_t (w : list Z) : list Z := match w with 0 :: sc => 0 :: xlate_script_t 0 sc | _ => w end.
 Definition gent_run (ops : list (list Z)) : list (list Z) := gen_run false (map xlate_t ops).
 Definition gent_oracle (wops wobs : list (list Z)) : bool := gen_oracle false (map xlate_t wops) wobs.
+
+(* ---------- engine gend: LONG synchronous generators (boundary sizes), op 30 N style: the consumer must receive
+   0 .. N-1, each once and in order, then the (sticky) end: count first last in_order terminated ---------- *)
+Definition gend_line (w : list Z) : list Z :=
+  match w with
+  | [30; n; y] => if (0 <=? n) && (0 <=? y) && (y <=? 4)
+                  then [0; n; if n =? 0 then -1 else 0; n - 1; 1; 1] else [1; 0; 0; 0; 0; 0]
+  | _ => [1; 0; 0; 0; 0; 0]
+  end.
+Definition gend_run (ops : list (list Z)) : list (list Z) := map gend_line ops.
+Fixpoint lz_eqb (a b : list Z) : bool :=
+  match a, b with [], [] => true | x :: a', y :: b' => (x =? y) && lz_eqb a' b' | _, _ => false end.
+Fixpoint llz_eqb (a b : list (list Z)) : bool :=
+  match a, b with [], [] => true | x :: a', y :: b' => lz_eqb x y && llz_eqb a' b' | _, _ => false end.
+Definition gend_oracle (wops wobs : list (list Z)) : bool := llz_eqb wobs (gend_run wops).
